@@ -5,6 +5,7 @@ import (
 	"errors"
 	"fmt"
 	"io"
+	"net/mail"
 	"os"
 
 	"github.com/inbucket/inbucket/v3/pkg/config"
@@ -213,6 +214,22 @@ func (h *Host) handleBeforeMessageStored(msg event.InboundMessage) *event.Inboun
 		return nil
 	}
 	defer h.pool.putState(ls)
+
+	// The event is a shallow copy: give the script its own addresses so that a handler which
+	// mutates them and then fails (or declines to answer) does not alter the message being stored.
+	if msg.From != nil {
+		from := *msg.From
+		msg.From = &from
+	}
+	to := make([]*mail.Address, len(msg.To))
+	for i, a := range msg.To {
+		if a != nil {
+			addr := *a
+			to[i] = &addr
+		}
+	}
+	msg.To = to
+	msg.Mailboxes = append([]string(nil), msg.Mailboxes...)
 
 	logger.Debug().Msgf("Calling Lua function with %+v", msg)
 	if err := ls.CallByParam(
